@@ -56,13 +56,20 @@ FRESH, OTHER = "fresh", "other"
 
 
 class Origin:
-    __slots__ = ("kind", "param", "elems", "items")
+    __slots__ = ("kind", "param", "elems", "items", "whole")
 
-    def __init__(self, kind, param=None, elems=None, items=None):
+    def __init__(self, kind, param=None, elems=None, items=None, whole=False):
         self.kind = kind  # 'fresh' | 'other' | 'input'
         self.param = param
         self.elems = elems  # Origin of the elements of a fresh container (None: same as kind)
         self.items = items  # positional element origins of a tuple / list display
+        self.whole = whole  # the parameter object itself (not something reached through it)
+
+    def part(self):
+        """something reached through this value (attribute, item, accessor result)"""
+        if self.kind == "input" and self.whole:
+            return Origin("input", self.param)
+        return self
 
     @property
     def is_input(self):
@@ -70,7 +77,7 @@ class Origin:
 
     def element(self):
         if self.kind == "input":
-            return self
+            return self.part()
         return self.elems if self.elems is not None else Origin(self.kind)
 
     def __repr__(self):
@@ -82,10 +89,12 @@ def join(a: Origin, b: Origin) -> Origin:
         return b
     if b is None:
         return a
+    if a.is_input and b.is_input:
+        return a if (a.param == b.param and a.whole == b.whole) else a.part()
     if a.is_input:
-        return a
+        return a.part() if b.kind == OTHER else a
     if b.is_input:
-        return b
+        return b.part() if a.kind == OTHER else b
     ea, eb = a.elems, b.elems
     el = None
     if ea is not None or eb is not None:
@@ -108,6 +117,7 @@ class Analysis:
     def __init__(self, prog):
         self.prog = prog
         self.fresh_return = {}  # FuncInfo key -> bool
+        self.ret_params = {}  # FuncInfo key -> set of parameter names that may be returned (None: anything)
         self.findings = []  # (fi, node, construct, param, why)
         self.call_args = {}  # callee key -> list of (caller fi, call node, [origins])
         self.n_functions = 0
@@ -167,6 +177,20 @@ class Analysis:
                 if self.fresh_return[self.key(fi)] and not val:
                     self.fresh_return[self.key(fi)] = False
                     changed = True
+                # which parameters may be returned (fresh values and whole parameters only)
+                outs = w.yields if any(isinstance(n, (ast.Yield, ast.YieldFrom)) for n in ast.walk(fi.node)) else w.returns
+                rp = set()
+                for r in outs:
+                    if r.kind == FRESH and (r.elems is None or r.elems.kind == FRESH):
+                        continue
+                    if r.is_input and r.param in w.params and getattr(r, "whole", False):
+                        rp.add(r.param)
+                        continue
+                    rp = None
+                    break
+                if self.ret_params.get(self.key(fi), set()) != rp:
+                    self.ret_params[self.key(fi)] = rp
+                    changed = True
 
     def callee_fresh(self, fi_or_list):
         if isinstance(fi_or_list, FuncInfo):
@@ -185,7 +209,7 @@ class FuncWalker:
         self.env = dict(outer_env or {})
         a = self.node.args
         for x in a.posonlyargs + a.args + a.kwonlyargs:
-            self.env[x.arg] = Origin("input", x.arg)
+            self.env[x.arg] = Origin("input", x.arg, whole=True)
         if a.vararg:
             self.env[a.vararg.arg] = Origin(FRESH, None, Origin("input", a.vararg.arg))
         if a.kwarg:
@@ -205,14 +229,16 @@ class FuncWalker:
             return Origin(FRESH)
         if isinstance(e, ast.Attribute):
             o = self.origin(e.value)
-            return o if o.is_input else self._attr_of(o)
+            return o.part() if o.is_input else self._attr_of(o)
         if isinstance(e, ast.Subscript):
             o = self.origin(e.value)
             if isinstance(e.slice, ast.Slice) and not o.is_input:
                 return Origin(FRESH, None, o.element())
+            if isinstance(e.slice, ast.Slice) and e.slice.lower is None and e.slice.upper is None and e.slice.step is None:
+                return Origin(FRESH, None, o.element())  # x[:] - the sequence copy idiom
             if o.items is not None and isinstance(e.slice, ast.Constant) and isinstance(e.slice.value, int) and -len(o.items) <= e.slice.value < len(o.items):
                 return o.items[e.slice.value]
-            return o.element() if not o.is_input else o
+            return o.element() if not o.is_input else o.part()
         if isinstance(e, (ast.List, ast.Tuple, ast.Set)):
             el = None
             items = []
@@ -322,6 +348,28 @@ class FuncWalker:
         if isinstance(callee, FuncInfo):
             if self.A.callee_fresh(callee):
                 return Origin(FRESH, None, el if recv is None else join(el, recv.element() if not recv.is_input else recv))
+            rp = self.A.ret_params.get(self.A.key(callee))
+            if rp and not any(isinstance(a, ast.Starred) for a in call.args):
+                # the callee returns fresh values or (whole) parameters only: the result is one of those arguments
+                cparams = callee.params() + [x.arg for x in callee.node.args.kwonlyargs]
+                bound = {}
+                off = 0
+                if callee.cls is not None and cparams and cparams[0] in ("self", "cls") and isinstance(f, ast.Attribute):
+                    unbound = isinstance(f.value, ast.Name) and isinstance(self.A.prog.resolve_name(self.fi.module, f.value.id), ClassInfo)
+                    if not unbound:
+                        bound[cparams[0]] = recv
+                        off = 1
+                for i, a in enumerate(call.args):
+                    if i + off < len(cparams):
+                        bound[cparams[i + off]] = self.origin(a)
+                for k in call.keywords:
+                    if k.arg:
+                        bound[k.arg] = self.origin(k.value)
+                if all(p in bound and bound[p] is not None for p in rp):
+                    res = Origin(FRESH)
+                    for p in rp:
+                        res = join(res, bound[p])
+                    return res
         if isinstance(f, ast.Name) and callee is None and name in FRESH_BUILTINS:
             if name in ("next", "getattr", "min", "max", "reduce"):
                 return el or Origin(FRESH)
@@ -330,7 +378,7 @@ class FuncWalker:
             if name in ("copy", "deepcopy", "__copy__", "keys", "values", "items", "union", "difference", "intersection", "split", "join", "format", "strip", "lower", "upper", "replace", "encode", "tolist", "hexdigest", "digest", "count", "index", "startswith", "endswith"):
                 return Origin(FRESH, None, recv.element() if recv is not None else None)
             if name == "get" or name == "pop" or name == "setdefault":
-                return recv.element() if recv is not None and not recv.is_input else (recv or Origin(OTHER))
+                return recv.element() if recv is not None and not recv.is_input else (recv.part() if recv is not None else Origin(OTHER))
             if name in ("__new__",):
                 return Origin(FRESH)
             if name == "reconstruct" or name == "_ufl_expr_reconstruct_":
@@ -340,7 +388,7 @@ class FuncWalker:
                 cands = [m for c in self.A.prog.all_classes() for nm, m in c.methods.items() if nm == name]
                 if cands and self.A.callee_fresh(cands):
                     return Origin(FRESH, None, join(el, recv))
-                return recv
+                return recv.part()
             if recv is not None and recv.kind == FRESH:
                 cands = [m for c in self.A.prog.all_classes() for nm, m in c.methods.items() if nm == name]
                 if cands and self.A.callee_fresh(cands):
@@ -349,10 +397,10 @@ class FuncWalker:
         # unknown / non-fresh callee: may return (part of) any argument
         for o in args:
             if o.is_input:
-                return o
+                return o.part()
         for o in args:
             if o.elems is not None and o.elems.is_input:
-                return o.elems
+                return o.elems.part()
         return Origin(OTHER)
 
     # ------------------------------------------------------------ statements
@@ -374,7 +422,7 @@ class FuncWalker:
         self.A.n_sinks += 1 if self.collect else 0
         if not o.is_input or not self.collect:
             return
-        self.A.findings.append((self.fi, node, receiver, o.param, kind, method, self.node))
+        self.A.findings.append((self.fi, node, receiver, o.param, kind, method, self.node, o.whole))
 
     def block(self, stmts):
         for st in stmts:
@@ -550,7 +598,7 @@ def analyse(prog, rep=None, extra_functions=()):
     return A, funcs
 
 
-def accumulator_ok(A, prog, fi, param, seen=None):
+def accumulator_ok(A, prog, fi, param, seen=None, whole=True):
     """(ok, offending call sites): every call site that passes `param` explicitly passes a value created
     by the caller, the working state of an algorithm object, or the caller's own accumulator parameter
     (checked transitively)"""
@@ -580,11 +628,15 @@ def accumulator_ok(A, prog, fi, param, seen=None):
         if o.kind in (FRESH, OTHER) and not o.is_input:
             if o.kind == OTHER:
                 bad.append((caller, call))
+            elif not whole and o.elems is not None and o.elems.kind != FRESH:
+                # the write goes to something reached *through* the parameter, and the caller's new
+                # object was built from (shares parts with) values it did not create itself
+                bad.append((caller, call))
             continue
         # an input of the caller
         if o.param == "self" and caller.cls is not None and A.is_algorithm_class(caller.cls):
             continue  # working state of an algorithm object
-        ok, _ = accumulator_ok(A, prog, caller, o.param, seen)
+        ok, _ = accumulator_ok(A, prog, caller, o.param, seen, whole and o.whole)
         if not ok:
             bad.append((caller, call))
     if passing == 0:
@@ -593,11 +645,34 @@ def accumulator_ok(A, prog, fi, param, seen=None):
     return (not bad), bad
 
 
+def constructor_helper(A: Analysis, fi: FuncInfo):
+    """a private method whose every call site in the package is `self.<name>(...)` inside a constructor of
+    the same class hierarchy (at least one such site): it runs before the object is visible to anyone"""
+    if not fi.name.startswith("_") or fi.name.startswith("__"):
+        return False
+    sites = A.call_args.get(A.key(fi), [])
+    if not sites:
+        return False
+    # every syntactic call `<x>.<name>(...)` in the package must be one of the resolved sites
+    n_syntactic = sum(1 for m in A.prog.modules.values() if not m.path.startswith("<") for n in ast.walk(m.tree) if isinstance(n, ast.Call) and isinstance(n.func, ast.Attribute) and n.func.attr == fi.name)
+    if n_syntactic != len({id(c) for _, c, _, _ in sites}):
+        return False
+    for caller, call, _o, _k in sites:
+        f = call.func
+        if not (isinstance(f, ast.Attribute) and isinstance(f.value, ast.Name) and f.value.id == "self"):
+            return False
+        if caller.cls is None or caller.name not in CTOR_NAMES:
+            return False
+        if fi.cls not in caller.cls.mro():
+            return False
+    return True
+
+
 def judge(A: Analysis, prog):
     """apply the exemption rules; returns list of (fi, node, construct, why)"""
     out = []
     seen = set()
-    for fi, node, receiver, param, kind, method, fn_node in A.findings:
+    for fi, node, receiver, param, kind, method, fn_node, whole in A.findings:
         construct = norm(node)[:160]
         keyf = (fi.module.name, fi.qualname, node.lineno, construct)
         if keyf in seen:
@@ -607,12 +682,16 @@ def judge(A: Analysis, prog):
             continue
         if param == "cls":
             continue  # class objects under construction (decorators, __new__, classmethods), not expressions
-        if param == "self" and fi.cls is not None and fn_node is fi.node or (param == "self" and fi.cls is not None and "self" not in [a.arg for a in fn_node.args.args]):
+        if param == "self" and fi.cls is not None:
+            # the method itself, a closure over its `self`, or a method wrapper built by a decorator
+            # defined in the class body (nested function whose own first parameter is `self`)
             cls = fi.cls
             if A.is_algorithm_class(cls):
                 continue  # (a)
             if fi.name in CTOR_NAMES:
                 continue  # (b) constructor
+            if fn_node is fi.node and constructor_helper(A, fi):
+                continue  # (b) private helper called only from the constructors of its class, on `self`
             tgt = node.targets[0] if isinstance(node, ast.Assign) else (node.target if isinstance(node, (ast.AugAssign, ast.AnnAssign)) else (node if isinstance(node, (ast.Attribute, ast.Subscript)) else receiver))
             attr = first_attr(tgt) if root_name(tgt) == "self" else None
             ident = A.slots_read_by_identity(cls)
@@ -625,7 +704,7 @@ def judge(A: Analysis, prog):
             continue
         # (c) accumulator parameter
         if fn_node is fi.node:
-            ok, bad = accumulator_ok(A, prog, fi, param)
+            ok, bad = accumulator_ok(A, prog, fi, param, None, whole)
             if ok:
                 continue
             where = "; ".join(f"{c.module.relpath}:{cl.lineno} {c.qualname} passes {norm(cl)[:60]}" for c, cl in bad[:3]) if bad else "no call site in the package passes a value created by the caller (public entry point)"
@@ -660,6 +739,15 @@ def uses_helper_fresh(x):
     acc = []
     helper(acc, x)
     return acc
+
+
+def deep_helper(records):
+    for r in records:
+        r.metadata()["k"] = 1
+
+
+def uses_deep_helper(form):
+    deep_helper(list(form.integrals()))
 '''
 
 
@@ -683,10 +771,10 @@ def run(ctx) -> Report:
     for fi in pf:
         FuncWalker(A2, fi, collect=True).run()
     v2 = {fi.name for fi, *_ in judge(A2, prog)}
-    if v2 == {"dirty"}:
+    if v2 == {"dirty", "deep_helper"}:
         rep.ok("C27-positive", pf[0], "the analysis flags the in-place write of the control example and accepts the copy idiom and the fresh accumulator")
     else:
-        raise AnalysisError(f"positive control failed: flagged {sorted(v2)} (expected ['dirty'])")
+        raise AnalysisError(f"positive control failed: flagged {sorted(v2)} (expected ['deep_helper', 'dirty'])")
     if A.n_functions < 1500:
         raise AnalysisError(f"only {A.n_functions} functions analysed")
     rep.extra["functions"] = A.n_functions
